@@ -10,7 +10,8 @@
      T id seed total chunk         total bytes of stream(seed) written in chunks of the given size
      M id key msg                  HMAC-SM3 (spec; model too)
      K id pw salt iter dklen       PBKDF2-HMAC-SM3 (spec; model too when iter <= 2)
-     X id digest len tail p        white box: internal state set, then Write(p), Sum(nil) *)
+     X id digest len tail p        white box: internal state set, then Write(p), Sum(nil)
+     A id ops                      white box: history with the overlap flag after every Write *)
 open Sm3_model
 open Conv
 
@@ -115,6 +116,18 @@ let handle (f : string array) : string =
       match ops with
       | [] -> List.rev acc
       | o :: r -> let (s', out) = step s o in go s' r (show_out out :: acc) in
+    let outs = go init (parse_ops f.(2)) [] in
+    (match crash outs with Some c -> c | None -> "ok " ^ String.concat "," outs)
+  | "A" ->
+    (* white box: the same history; the heap-level model (theorem C04_Write_never_keeps_or_writes_callers_array)
+       says the object's buffer never overlaps the caller's: flag 0 after every Write *)
+    let rec go s ops acc =
+      match ops with
+      | [] -> List.rev acc
+      | o :: r ->
+        let (s', out) = step s o in
+        let t = (match out with OutWrite _ -> show_out out ^ "/0" | _ -> show_out out) in
+        go s' r (t :: acc) in
     let outs = go init (parse_ops f.(2)) [] in
     (match crash outs with Some c -> c | None -> "ok " ^ String.concat "," outs)
   | "N" ->
